@@ -619,7 +619,42 @@ template <class G> int runOne(const std::string &prop, Family fam, bool directed
         else if (prop == "C09") c09State(g, m, sink);
         else if (prop == "C10") c10State(g, m, sink, true);
     };
-    if (variant == "ctorlong") {
+    if (variant == "huge") {
+        // a hub with several hundred thousand lower-index neighbours (and the mirror shapes): traversal must
+        // neither skip nor run out of stack
+        unsigned spokes = (unsigned)args.getInt("spokes", 400000);
+        for (int shape = 0; shape < 3; ++shape) {
+            unsigned n = spokes + 1;
+            G g(n);
+            size_t want = 0;
+            auto add = [&](unsigned i, unsigned j) {
+                if constexpr (T::fam == PLAIN) g.addEdge(i, j, true);
+                else if constexpr (T::fam == MULTI) g.addMultiedge(i, j, 2, true);
+                else g.addEdge(i, j, 0.5, true);
+                ++want;
+            };
+            // (force=true only avoids the quadratic existence scan while BUILDING; no pair is inserted twice)
+            if (shape == 0) for (unsigned i = 0; i < spokes; ++i) add(n - 1, i);          // hub = last vertex
+            if (shape == 1) for (unsigned i = 1; i <= spokes; ++i) add(0, i);              // hub = first vertex
+            if (shape == 2) for (unsigned i = 0; i + 1 < n; i += 2) add(i + 1, i);         // every edge names the larger vertex first
+            breadcrumb(rep.config + " huge shape " + std::to_string(shape));
+            ++g_cases;
+            ++g_nontrivial;
+            size_t a = 0, b = 0, vcount = 0;
+            unsigned long long checksum = 0;
+            for (auto e : g.edges()) { ++a; checksum += e.first * 3ull + e.second; }
+            {
+                auto E = g.edges();
+                auto it = E.begin();
+                while (it != E.end()) { auto old = it++; checksum -= (*old).first * 3ull + (*old).second; ++b; }
+            }
+            for (auto v : g) { (void)v; ++vcount; }
+            digestNum(a);
+            if (a != want || b != want || checksum != 0 || vcount != n)
+                rep.violation("C08:" + rep.config + ":c08.huge", "graph with " + std::to_string(n) + " vertices and " + std::to_string(want) + " edges (shape " + std::to_string(shape) + "): range-for yields " + std::to_string(a) + " edges, post-increment walk " +
+                                                                   std::to_string(b) + ", vertices " + std::to_string(vcount), "--variant huge");
+        }
+    } else if (variant == "ctorlong") {
         if constexpr (T::fam == PLAIN) {
             using L = typename T::Label;
             if constexpr (!T::labelled) ctorLong<G, Edge>(rep, rep.config, {0}, [](unsigned i, unsigned j, long) { return Edge{i, j}; }, [](G &g, unsigned i, unsigned j, long) { g.addEdge(i, j); });
